@@ -200,7 +200,7 @@ func c19Fetch(c *Ctx) {
 	})
 	okRet := len(s.Exits) > 0
 	for _, e := range s.Exits {
-		if desc(e.Ret.Results[0]) != desc(fa)+"#0" || desc(e.Ret.Results[1]) != gd+"#0" {
+		if desc(e.Ret.Results[0]) != res(fa, 0) || desc(e.Ret.Results[1]) != res(gcall, 0) {
 			okRet = false
 		}
 	}
@@ -692,7 +692,7 @@ func c19Push(c *Ctx) {
 	})
 	okRet := len(s.Exits) > 0
 	for _, e := range s.Exits {
-		if desc(e.Ret.Results[0]) != desc(pb)+"#0" || desc(e.Ret.Results[1]) != desc(up)+"#0" {
+		if desc(e.Ret.Results[0]) != res(pb, 0) || desc(e.Ret.Results[1]) != res(up, 0) {
 			okRet = false
 		}
 	}
